@@ -11,7 +11,8 @@
             - an update list is not ordered by (index, timestamp, version);
           0 case did not parse. *)
 From Coq Require Import ZArith List Bool.
-From Verif Require Import Base.Wire Annotate.Model Annotate.Case.
+From Verif Require Import Base.Wire Annotate.Model Annotate.Case Annotate.GenOk.
+From VerifGen Require GenAnnotate.
 Import ListNotations.
 Open Scope Z_scope.
 Open Scope wire_scope.
@@ -47,11 +48,12 @@ Definition check_ann : P (list Z) :=
           && forallb (fun o => forallb (sortedb itv_leb) (oc_updates o)) outs
         else forallb (fun o => negb (oc_status o =? 0)) rest
     end in
-  ret (code_if j1 1 ++ code_if j2 2)%list.
+  ret (code_if j1 1 ++ code_if j2 2 ++ code_if (i_cis i =? commit_info_start) 3)%list.
 
 Definition check_sort : P (list Z) :=
   inp <- plist pupdate ;; obs <- plist pupdate ;;
-  let j1 := list_eqb update_eqb (isort less inp) obs in
+  (* the model sorts with the comparison regenerated from update.go (GenOk: equal to [less]) *)
+  let j1 := list_eqb update_eqb (isort GenAnnotate.gen_less_index inp) obs in
   let j2 := sortedb itv_leb obs && list_eqb update_eqb (isort less inp) (isort less obs) in
   ret (code_if j1 1 ++ code_if j2 2)%list.
 
